@@ -543,8 +543,11 @@ InjectFault ==
             /\ sp' = [S0(kind) EXCEPT !.rep = TRUE, !.replvl = "field", !.repnode = f.node] /\ fcls' = f.cls
        \/ \E tn \in ObjTypes(kind, pos, TRUE, lbls[1]) \cup OneofTypes(kind, pos, TRUE, lbls[1]) :
             /\ sp' = [S0(kind) EXCEPT !.uk = tn] /\ fcls' = "unknownkey:" \o tn
-       \/ \E tn \in OneofTypes(kind, pos, TRUE, lbls[1]), of \in {"multi", "mismatch", "typenum"} :
-            /\ sp' = [S0(kind) EXCEPT !.of = of, !.ofn = tn] /\ fcls' = "oneof:" \o of \o ":" \o tn
+       \* the oneof faults are injected with the members in canonical order ("!type" first) and reversed ("!type" after the
+       \* key it contradicts): a decoder that checks "!type" while reading keys sees them in document order
+       \/ \E tn \in OneofTypes(kind, pos, TRUE, lbls[1]), of \in {"multi", "mismatch", "typenum"}, rv \in BOOLEAN :
+            /\ sp' = [S0(kind) EXCEPT !.of = of, !.ofn = tn, !.rev = rv]
+            /\ fcls' = "oneof:" \o of \o ":" \o tn \o (IF rv THEN ":rev" ELSE "")
     /\ phase' = "done"
     /\ UNCHANGED <<kind, card, pos, anyc, elems, lbls, wfonly, tagged, ws>>
 
